@@ -8,6 +8,7 @@ pub fn registry() -> Vec<Box<dyn FamilyDyn>> {
     vec![
         Box::new(FamRunner::new(crate::fam_lock::program_set)),
         Box::new(FamRunner::new(crate::fam_atomic::program_set)),
+        Box::new(FamRunner::new(crate::fam_sync::program_set)),
     ]
 }
 
@@ -126,10 +127,31 @@ pub fn c04(ctx: &CheckCtx) -> CheckResult {
     res
 }
 
+pub fn c05(ctx: &CheckCtx) -> CheckResult {
+    let mut res = CheckResult::new("model_checking");
+    let set = if ctx.tier.is_thorough() { "thorough" } else { "quick" };
+    let mode = Mode {
+        complete: false,
+        ..Mode::default()
+    };
+    run_e2(
+        ctx,
+        &mut res,
+        &[("sync", set, mode)],
+        &[VKind::Sound, VKind::Enabled, VKind::Ending, VKind::Abort],
+        if ctx.tier.is_thorough() { 1500.0 } else { 50.0 },
+    );
+    res.cov("rule", e2_rule());
+    res.assumptions.push("small-scope: programs up to the stated size only".into());
+    res.assumptions.push("reference models of Condvar/Barrier/Once/park written from std's documented contracts (Appendix A of DESIGN.md); no spurious condvar wake-ups, as the property states".into());
+    res
+}
+
 pub fn run_check(id: &str, tier: Tier) -> ! {
     let ctx = CheckCtx::new(id, tier);
     let res = match id {
         "C04" => c04(&ctx),
+        "C05" => c05(&ctx),
         _ => {
             eprintln!("MACHINERY-ERROR: no check registered for {}", id);
             std::process::exit(2)
